@@ -3,7 +3,7 @@
    lists whose value types are all trivially relocatable ([all_triv]).  Each operation
    preserves the representation invariant [Rep] and produces the spec machine's result. *)
 From Coq Require Import ZArith Lia List Bool.
-From Cntgs Require Import Base BaseLemmas Layout LayoutThm Mem MemLemmas Vector Spec Rep ElemLemmas Ordered.
+From Cntgs Require Import Base BaseLemmas Layout LayoutThm Mem MemLemmas Vector Spec Rep ElemLemmas Ordered EsizeThm.
 Import ListNotations.
 Local Open Scope Z_scope.
 
@@ -616,8 +616,7 @@ Proof.
 Qed.
 
 Theorem refinement_from_construction : forall L cap budget fixed aid junk bid tbid h,
-  wf_plist L = true -> all_triv L = true -> 0 <= cap ->
-  (has_varying L = false -> stride_ok L (fixed_counts L fixed) (snd (esize L fixed))) ->
+  wf_plist L = true -> all_triv L = true -> 0 <= cap -> Forall (fun c => 0 <= c) fixed ->
   let v0 := fst (mkvec L cap budget fixed aid junk bid tbid) in
   let s0 := {| s_cap := cap; s_elems := [] |} in
   shist_valid L (fixed_counts L fixed) s0 h ->
@@ -628,7 +627,9 @@ Theorem refinement_from_construction : forall L cap budget fixed aid junk bid tb
   forall i, (i < length (s_elems s))%nat ->
     read_elem L (v_fixed v) (v_mem v) (eaddr L v (Z.of_nat i)) = nth i (s_elems s) [].
 Proof.
-  intros L cap budget fixed aid junk bid tbid h Hwf Ht Hcap Hst. cbv zeta. intros Hv.
+  intros L cap budget fixed aid junk bid tbid h Hwf Ht Hcap Hfx. cbv zeta. intros Hv.
+  assert (Hst : has_varying L = false -> stride_ok L (fixed_counts L fixed) (snd (esize L fixed))).
+  { intros Hnv. apply esize_stride_ok; auto. apply fixed_counts_nonneg; auto. }
   destruct (mkvec_rep L Hwf cap budget fixed aid junk bid tbid Hcap Hst) as (R0 & Hc0 & Hf0).
   cbv zeta in *.
   destruct (vrun_rep L Hwf Ht junk h _ {| s_cap := cap; s_elems := [] |} R0 Hc0) as (R & Hc).
@@ -637,8 +638,7 @@ Proof.
 Qed.
 
 Theorem refinement_every_prefix : forall L cap budget fixed aid junk bid tbid h1 h2,
-  wf_plist L = true -> all_triv L = true -> 0 <= cap ->
-  (has_varying L = false -> stride_ok L (fixed_counts L fixed) (snd (esize L fixed))) ->
+  wf_plist L = true -> all_triv L = true -> 0 <= cap -> Forall (fun c => 0 <= c) fixed ->
   let v0 := fst (mkvec L cap budget fixed aid junk bid tbid) in
   let s0 := {| s_cap := cap; s_elems := [] |} in
   shist_valid L (fixed_counts L fixed) s0 (h1 ++ h2) ->
@@ -651,4 +651,11 @@ Theorem refinement_every_prefix : forall L cap budget fixed aid junk bid tbid h1
 Proof.
   intros L cap budget fixed aid junk bid tbid h1 h2 Hwf Ht Hcap Hst. cbv zeta. intros Hv.
   apply refinement_from_construction; auto. eapply shist_valid_app; eauto.
+Qed.
+
+Theorem reserve_noop : forall L v n b junk bid tbid,
+  n <= v_cap v -> reserve L v n b junk bid tbid = (v, []).
+Proof.
+  intros L v n b junk bid tbid H. unfold reserve.
+  replace (v_cap v <? n) with false by (symmetry; apply Z.ltb_ge; lia). reflexivity.
 Qed.
